@@ -28,6 +28,9 @@ import (
 // identity, one after the other, on its own goroutine:
 //     S  AskGrain(identity, msg)              (activates the grain where the engine decides)
 //     A  GrainIdentity(name, factory)         (explicit activation)
+//     R  GrainIdentity(name, factory, WithActivationStrategy(RoundRobinActivation))
+//                                             (explicit activation that may claim the grain for a PEER
+//                                              and ask that peer to activate it: tryPeerActivation)
 //     D  TellGrain(identity, PoisonPill)      (deactivation)
 // Gates (= the events the explorer orders, all orders are enumerated): the start of every operation
 // but the first of a script (the first operations are all in flight from the beginning),
@@ -214,7 +217,7 @@ func c30First(a []string) string {
 
 type c30Cfg struct {
 	name    string
-	scripts []string // per node, letters S A D
+	scripts []string // per node, letters S A R D
 	bound   int
 	faults  bool
 }
@@ -301,6 +304,13 @@ func c30Run(t *testing.T, cfg c30Cfg, c *vsched.Chooser) (out vsched.Outcome) {
 						}
 					case 'A':
 						_, err := sys.GrainIdentity(ctx, "g", func(context.Context) (Grain, error) { return &c30Grain{}, nil })
+						if err != nil {
+							res = "err"
+						} else {
+							res = "ok"
+						}
+					case 'R':
+						_, err := sys.GrainIdentity(ctx, "g", func(context.Context) (Grain, error) { return &c30Grain{}, nil }, WithActivationStrategy(RoundRobinActivation))
 						if err != nil {
 							res = "err"
 						} else {
